@@ -94,6 +94,7 @@ fn main() {
     let mut samples: Vec<Value> = vec![];
     let mut probes = 0u64;
     let mut nested_probes = 0u64;
+    let mut wide_probes = 0u64;
     let mut shapes_distinct: BTreeSet<String> = BTreeSet::new();
     let current: BTreeSet<&str> = types.iter().map(|t| t.path).collect();
     for (i, t) in types.iter().enumerate() {
@@ -200,6 +201,27 @@ fn main() {
                                 }
                             } else if occ.len() != 1 || occ[0].0 != 0 || occ[0].1 != want_v {
                                 bad = Some(format!("field number {tag} should carry the {kind} field '{name}' (name-derived value {want_v}); found {:?}", occ.iter().map(|o| (o.0, o.1)).collect::<Vec<_>>()));
+                            } else if kind == "uint64" || kind == "int64" {
+                                // a 64-bit field keeps all 64 bits: conforming bytes with a value beyond 32 bits decode
+                                // and re-encode unchanged
+                                let (_, _, _, off, len) = occ[0].clone();
+                                let mut enc = vec![];
+                                let mut v: u64 = (1u64 << 40) + 5 + (want_v & 0xff);
+                                loop {
+                                    let b = (v & 0x7f) as u8;
+                                    v >>= 7;
+                                    if v == 0 { enc.push(b); break; }
+                                    enc.push(b | 0x80);
+                                }
+                                let mut patched = res.named_bytes[..off].to_vec();
+                                patched.extend_from_slice(&enc);
+                                patched.extend_from_slice(&res.named_bytes[off + len..]);
+                                match (t.recode)(&patched) {
+                                    Ok(b2) if b2 == patched => {}
+                                    Ok(_) => bad = Some(format!("{kind} field '{name}' (number {tag}) does not keep a value beyond 32 bits: conforming bytes re-encode differently")),
+                                    Err(e) => bad = Some(format!("{kind} field '{name}' (number {tag}) rejects a value beyond 32 bits: {e}")),
+                                }
+                                wide_probes += 1;
                             }
                         }
                         "message" => {
@@ -331,6 +353,7 @@ fn main() {
         "enumerations_checked": enums_checked,
         "field_probes": probes,
         "nested_probes": nested_probes,
+        "wide_probes": wide_probes,
         "types_checked": checked, "evals": evals, "types_diffed": diffed, "diff_evals": diff_evals, "urls_checked": urls_checked,
         "hostile_decoded": hostile_ok, "hostile_rejected": hostile_err, "unpinned": unpinned, "missing": missing,
         "violations": violations, "samples": samples, "distinct_shapes": shapes_distinct.len(),
